@@ -5,7 +5,7 @@ import runlib as R
 ID = 'C13'
 COQ_TARGETS = ['Props/Properties_C13.vo']
 PROPS_FILES = ['Props/Properties_C13.v']
-THEOREMS = ['C13_exists', 'C13_exact', 'C13_confined', 'C13_checker_sound']
+THEOREMS = ['C13_exists', 'C13_exact', 'C13_confined', 'C13_bounce_line']
 ENGINES = [dict(name='vpop', c_sources=['vpop_h.c'], extract='Extract/Extract_vpop.v', driver='vpop_driver.ml',
                 glue=('glue.ml', 'glue_z.ml'), accepts=lambda c: c.startswith('c1 '))]
 RULE = ('cases = (users/cdb records, domain, domain directory layout, control/vpopbounce, local part, bytes following the local '
